@@ -332,7 +332,12 @@ class AsyncFIXConnection:
 
         self._test_req_id = int(time.time())
         test_msg = FIXMessage(FMsg.TESTREQUEST, {FTag.TestReqID: self._test_req_id})
-        await self.send_msg(test_msg)
+        try:
+            await self.send_msg(test_msg)
+        except FIXConnectionError:
+            # refused, nothing was sent: no TestRequest is outstanding
+            self._test_req_id = None
+            raise
 
     async def socket_read_task(self):
         """Main socket reader task (decode raw messages and calls _process_message)."""
